@@ -502,7 +502,7 @@ static void DecodeAdr(tStrComp* pArg, Word Mask) {
                 }
             } else {
                 if (DispSize == eSymbolSizeUnknown) {
-                    if ((DispAcc >= -128) && (DispAcc < 127)) {
+                    if ((DispAcc >= -128) && (DispAcc <= 127)) {
                         DispSize = eSymbolSize8Bit;
                     } else {
                         DispSize = eSymbolSize16Bit;
